@@ -96,8 +96,10 @@ CONTRACTS['FrameItem._setup_frame_params_from_data'] = dict(
              # what the tolerance kernel decided (K = (uniform step or None, monotonic sense or None)) is what gets written, nothing else
              ('spacing-is-the-uniform-step-when-there-is-one', f'implies(self.index_type._value is not None and old(self.spacing._value) is None and {KRN}[0] is not None, self.spacing._value == converted(self.spacing, {KRN}[0]))'),
              ('spacing-is-absent-when-the-steps-are-not-uniform', f'implies(self.index_type._value is not None and old(self.spacing._value) is None and {KRN}[0] is None, self.spacing._value is None)'),
-             ('direction-reflects-the-monotonic-sense-when-spacing-is-absent', f'implies(self.index_type._value is not None and old(self.direction._value) is None and {KRN}[0] is None and {KRN}[1] is not None, '
-                                                                                f'self.direction._value == converted(self.direction, "INCREASING" if {KRN}[1] else "DECREASING"))'),
+             ('increasing-sense-is-written-as-INCREASING-when-spacing-is-absent', f'implies(self.index_type._value is not None and old(self.direction._value) is None and {KRN}[0] is None and {KRN}[1] is True, '
+                                                                                   f'self.direction._value == converted(self.direction, "INCREASING"))'),
+             ('decreasing-sense-is-written-as-DECREASING-when-spacing-is-absent', f'implies(self.index_type._value is not None and old(self.direction._value) is None and {KRN}[0] is None and {KRN}[1] is False, '
+                                                                                   f'self.direction._value == converted(self.direction, "DECREASING"))'),
              ('no-direction-without-a-monotonic-sense', f'implies(self.index_type._value is not None and old(self.direction._value) is None and {KRN}[1] is None, self.direction._value is None)')])
 
 # ---------------------------------------------------------------------------------------------- per-subtype converters (C05 step 3)
